@@ -117,11 +117,11 @@ const (
 
 // modes
 const (
-	modeDirect    = iota // operations issued directly on the router
-	modeTxnCommit        // operations inside one write transaction, committed
-	modeTxnAbort         // ... aborted
-	modeInHandler        // operations issued from inside a request handler (the request is the snapshot)
-	modeManagedEach      // every operation in a managed transaction of its own (Router.Updates), committed
+	modeDirect      = iota // operations issued directly on the router
+	modeTxnCommit          // operations inside one write transaction, committed
+	modeTxnAbort           // ... aborted
+	modeInHandler          // operations issued from inside a request handler (the request is the snapshot)
+	modeManagedEach        // every operation in a managed transaction of its own (Router.Updates), committed
 )
 
 var modeNames = [...]string{"direct", "one-txn-commit", "one-txn-abort", "inside-handler", "one-managed-transaction-per-operation"}
